@@ -174,6 +174,7 @@ func (e *Env) appendSeq(s Value, view, rel, n *Term, rt types.Type) Value {
 		Implies(inNew, Eq(Select(newA, k), Select(view, Add(rel, Sub(k, lo))))),
 		Implies(And(fits, Not(inNew)), Eq(Select(newA, k), Select(oldA, k))),
 		Implies(And(Not(fits), Le(IntLit(0), k), Lt(k, s.Len)), Eq(Select(newA, k), Select(oldA, Add(s.Off, k)))))))
+	e.noteMemWrite(newRef)
 	e.assign("Mem", SMem, Store(e.mem(), newRef, newA))
 	e.assign("$nextRef", SInt, Ite(fits, e.nextRef(), Add(e.nextRef(), IntLit(1))))
 	e.noteUpdate(oldA, newA, Ite(fits, lo, IntLit(0)), fits)
@@ -222,6 +223,7 @@ func (e *Env) copyCall(dst, src Value, rt types.Type) Value {
 	e.assume(Forall([]*Term{k}, And(
 		Implies(in, Eq(Select(newA, k), Select(sView, Add(sRel, Sub(k, dst.Off))))),
 		Implies(Not(in), Eq(Select(newA, k), Select(oldA, k))))))
+	e.noteMemWrite(dst.Ref)
 	e.assign("Mem", SMem, Store(e.mem(), dst.Ref, newA))
 	e.noteUpdate(oldA, newA, dst.Off, True)
 	return Value{K: VInt, T: n, Typ: rt}
